@@ -26,6 +26,7 @@ var Hosts = map[string]*HostSpec{
 	"hs":    {Name: "hs", Params: []string{"string", "int64"}},                  // typed parameters, returns s
 	"hvs":   {Name: "hvs", Params: []string{"string", "int64"}, Variadic: true}, // (s, nums...) returns len(nums)
 	"pg":    {Name: "pg", Params: []string{"any"}},              // event on the goroutine trace
+	"hg":    {Name: "hg", Params: []string{"any"}, Variadic: true},                 // Go function meant to be started with `go`: event on the goroutine trace
 	"gdone": {Name: "gdone", Params: []string{}},                // goroutine completion signal
 	"gwait": {Name: "gwait", Params: []string{"any"}},           // wait for n completion signals
 }
